@@ -151,6 +151,16 @@ def conv_cases(ck):
                 [(3, [1, 2, 3], 1), (3, [3, 2, 1], 1), (3, [1, 1, 2], 3)]):
         for dims, rfs, C in fam:
             configs.append((dims, list(rfs), C, rng.randrange(1, 3), 2))
+    # feasibility boundary: with n = positions x channels, depth d is feasible iff 2^d <= n(n-1)/2; the largest feasible depth and
+    # the one above it (which is still below the number of ORDERED pairs n(n-1)) for small n, in 2-D and 3-D
+    for dims, rfs, C in [(2, [1, 1], 2), (2, [1, 1], 3), (2, [1, 1], 4), (2, [1, 1], 5), (2, [2, 2], 1), (2, [2, 2], 2),
+                         (3, [1, 1, 1], 2), (3, [1, 1, 1], 3), (3, [1, 1, 1], 5), (3, [1, 2, 2], 1), (3, [1, 1, 2], 1), (3, [1, 1, 2], 3),
+                         (3, [2, 2, 2], 1)]:
+        n_pos = int(np.prod(rfs)) * C
+        maxp = n_pos * (n_pos - 1) // 2
+        d_ok = maxp.bit_length() - 1          # largest d with 2^d <= maxp (maxp >= 1)
+        for depth in sorted({max(1, d_ok), d_ok + 1}):
+            configs.append((dims, list(rfs), C, depth, 1))
     for t, (dims, rfs, C, depth, K) in enumerate(configs):
         P = int(np.prod(rfs)) * C
         s = 2 ** depth
